@@ -193,7 +193,10 @@ func (manager *localManager) ListAllUsers() (infos []UserInfo, err error) {
 	err = manager.db.View(func(tx *bolt.Tx) error {
 		err = tx.ForEach(func(UID []byte, bucket *bolt.Bucket) error {
 			var uinfo UserInfo
-			uinfo.UID = UID
+			// the key is only valid inside the transaction: it points into the memory-mapped database file,
+			// which is unmapped when a later write has to enlarge the file. Keeping it crashed the server
+			// (unrecoverable fault) when a listing was marshalled while users were being added
+			uinfo.UID = append([]byte(nil), UID...)
 			uinfo.SessionsCap = JustInt32(int32(u32(bucket.Get([]byte("SessionsCap")))))
 			uinfo.UpRate = JustInt64(int64(u64(bucket.Get([]byte("UpRate")))))
 			uinfo.DownRate = JustInt64(int64(u64(bucket.Get([]byte("DownRate")))))
